@@ -2,6 +2,7 @@ package main
 
 import (
 	"fmt"
+	"go/constant"
 	"go/token"
 	"go/types"
 	"math"
@@ -39,6 +40,10 @@ func fnPkg(fn *ssa.Function) *ssa.Package {
 		if o := fn.Origin(); o != nil {
 			fn = o
 			continue
+		}
+		// the wrapper of a method expression or method value (T.m, v.m) belongs to the method's package
+		if fn.Synthetic != "" && fn.Object() != nil && fn.Object().Pkg() != nil && fn.Prog != nil {
+			return fn.Prog.Package(fn.Object().Pkg())
 		}
 		break
 	}
@@ -357,6 +362,12 @@ func isMessageReader(p *Program, fn *ssa.Function) bool {
 // there exactly as if they were written in line.
 var fieldHelperMemo = map[*ssa.Function]int{} // 1 yes, 2 no, 3 in progress
 
+// sameOrInstanceOf: callee is fn, or an instantiation of the generic function fn (generic bodies are analysed
+// once, at their origin; their callers call the instantiations).
+func sameOrInstanceOf(callee, fn *ssa.Function) bool {
+	return callee != nil && (callee == fn || callee.Origin() == fn)
+}
+
 func isFieldHelper(p *Program, fn *ssa.Function) bool {
 	switch fieldHelperMemo[fn] {
 	case 1:
@@ -386,7 +397,7 @@ func isFieldHelper(p *Program, fn *ssa.Function) bool {
 		for _, caller := range p.AllFuncs {
 			for _, b := range caller.Blocks {
 				for _, in := range b.Instrs {
-					if c, ok := in.(ssa.CallInstruction); ok && c.Common().StaticCallee() == fn {
+					if c, ok := in.(ssa.CallInstruction); ok && sameOrInstanceOf(c.Common().StaticCallee(), fn) {
 						if _, isGo := in.(*ssa.Go); isGo {
 							return false
 						}
@@ -582,6 +593,9 @@ func RulePanic(r *Report, p *Program, tier string, wireTypes map[string]bool) {
 					if k, ok := makeSliceLen(x.X); ok && k > have {
 						have = k
 					}
+					if have < n && proveLenAtLeast(p, x, x.X, n) {
+						have = n // x[e:e+c] with c >= n, or a length established by the dominating comparisons
+					}
 					if have >= n {
 						st.ok, st.why = true, "slice of at least the array length converted to an array"
 					} else {
@@ -596,24 +610,48 @@ func RulePanic(r *Report, p *Program, tier string, wireTypes map[string]bool) {
 						}
 					}
 				case *ssa.Call:
-					if f := x.Call.StaticCallee(); f != nil && calleeName(f) == "(time.Time).In" && len(x.Call.Args) == 2 {
-						// Time.In panics on a nil *Location (documented)
-						loc := x.Call.Args[1]
-						okLoc := false
-						if u, isLoad := loc.(*ssa.UnOp); isLoad {
-							if g, isG := u.X.(*ssa.Global); isG && g.Pkg != nil && g.Pkg.Pkg.Path() == "time" {
-								okLoc = true // time.Local, time.UTC
+					if f := x.Call.StaticCallee(); f != nil {
+						// Time.In, time.Date and time.ParseInLocation panic on a nil *Location (documented / "missing
+						// Location in call to Date")
+						li := -1
+						switch calleeName(f) {
+						case "(time.Time).In":
+							li = 1
+						case "time.Date":
+							li = 7
+						case "time.ParseInLocation":
+							li = 2
+						}
+						if li >= 0 && li < len(x.Call.Args) {
+							loc := x.Call.Args[li]
+							var okVal func(v ssa.Value, depth int) bool
+							okVal = func(v ssa.Value, depth int) bool {
+								if depth > 4 {
+									return false
+								}
+								if u, isLoad := v.(*ssa.UnOp); isLoad {
+									if g, isG := u.X.(*ssa.Global); isG && g.Pkg != nil && g.Pkg.Pkg.Path() == "time" {
+										return true // time.Local, time.UTC
+									}
+								}
+								if c, isCall := v.(*ssa.Call); isCall {
+									if cf := c.Call.StaticCallee(); cf != nil && (calleeName(cf) == "time.FixedZone" || calleeName(cf) == "(time.Time).Location") {
+										return true
+									}
+								}
+								if ph, isPhi := v.(*ssa.Phi); isPhi {
+									for _, e := range ph.Edges {
+										if !okVal(e, depth+1) {
+											return false
+										}
+									}
+									return len(ph.Edges) > 0
+								}
+								return false
 							}
+							okLoc := okVal(loc, 0) || nonNilDominates(x.Block(), loc)
+							add(panicSite{fn: fn, instr: x, kind: "nil-location", rule: "P5", ok: okLoc, why: "location is time.Local/time.UTC, a fixed zone, or checked for nil", detail: calleeName(f) + " is called with a *time.Location that may be nil (e.g. a configured controller's unset time zone): it panics"})
 						}
-						if c, isCall := loc.(*ssa.Call); isCall {
-							if cf := c.Call.StaticCallee(); cf != nil && (calleeName(cf) == "time.FixedZone" || calleeName(cf) == "(time.Time).Location") {
-								okLoc = true
-							}
-						}
-						if nonNilDominates(x.Block(), loc) {
-							okLoc = true
-						}
-						add(panicSite{fn: fn, instr: x, kind: "nil-location", rule: "P5", ok: okLoc, why: "location is time.Local/time.UTC, a fixed zone, or checked for nil", detail: "Time.In is called with a *time.Location that may be nil (e.g. a configured controller's unset time zone): it panics"})
 					}
 					if f := x.Call.StaticCallee(); f != nil && calleeName(f) == "regexp.MustCompile" {
 						s, ok := constStr(x.Call.Args[0])
@@ -675,10 +713,47 @@ func RulePanic(r *Report, p *Program, tier string, wireTypes map[string]bool) {
 	}
 }
 
+// isSelectFallthrough: the panic go/ssa synthesises behind the case dispatch of a blocking select (no source
+// position, a fixed message, reached only when the select index equals none of the case numbers).
+func isSelectFallthrough(x *ssa.Panic) bool {
+	if x.Pos().IsValid() {
+		return false
+	}
+	mi, ok := x.X.(*ssa.MakeInterface)
+	if !ok {
+		return false
+	}
+	k, ok := mi.X.(*ssa.Const)
+	if !ok || k.Value == nil || k.Value.Kind() != constant.String || constant.StringVal(k.Value) != "blocking select matched no case" {
+		return false
+	}
+	// every way into the block is the false branch of a comparison of a select's index
+	for _, pr := range x.Block().Preds {
+		ifi, ok := pr.Instrs[len(pr.Instrs)-1].(*ssa.If)
+		if !ok || pr.Succs[1] != x.Block() {
+			return false
+		}
+		bo, ok := ifi.Cond.(*ssa.BinOp)
+		if !ok || bo.Op != token.EQL {
+			return false
+		}
+		ex, ok := bo.X.(*ssa.Extract)
+		if !ok || ex.Index != 0 {
+			return false
+		}
+		if sel, ok := ex.Tuple.(*ssa.Select); !ok || !sel.Blocking {
+			return false
+		}
+	}
+	return len(x.Block().Preds) > 0
+}
+
 func classifyPanic(p *Program, fn *ssa.Function, x *ssa.Panic) panicSite {
 	s := panicSite{fn: fn, instr: x, kind: "panic", rule: "P4"}
 	name := fn.Name()
 	switch {
+	case isSelectFallthrough(x):
+		s.ok, s.why = true, "the no-case-matched arm the compiler puts after a blocking select: a blocking select returns the index of one of its cases"
 	case isRangeFuncPanic(x):
 		if ok, why := moduleIteratorsKeepProtocol(p); ok {
 			s.ok, s.why = true, "range-over-func protocol check inserted by the compiler: every iterator of the module calls yield only while all earlier calls returned true, keeps no copy of it and recovers nothing"
